@@ -475,3 +475,75 @@ pub fn table_c07(t: &mut Tab) {
         }
     }
 }
+
+
+/// C10: barrier accounting. Every barrier form, applied r times in ONE marking phase to a fully
+/// marked parent of every kind (tracing and non-tracing), with 0-3 other traced objects in the
+/// cycle, with a marking increment between the rounds; the debt is kept positive so that a counter
+/// that wraps or underflows shows as a panic (debug) or as a collapsing debt (release).
+pub fn table_c10(t: &mut Tab) {
+    let kinds: [(Kind, u8); 9] = [(Kind::Node, 0), (Kind::RCell, 0), (Kind::LCell, 0), (Kind::Leaf, 0), (Kind::LeafLock, 0), (Kind::Stat, 0), (Kind::Str, 3), (Kind::Slice, 1), (Kind::Swh, 1)];
+    for (kind, n) in kinds {
+        for extra in 0..4u32 {
+            // modes 0..5 = the six explicit barrier forms with a fresh white child, 6 = touch
+            // (Gc::write / borrow_mut / Lock::set), 7 = store through the kind's own setter
+            for mode in 0..8u8 {
+                for rounds in 1..=4u32 {
+                    for between in 0..3 {
+                        let name = format!("{}|extra{}|mode{}|rounds{}|between{}", kind.name(), extra, mode, rounds, between);
+                        let cont = t.run(
+                            name,
+                            || {
+                                let mut body = vec![alloc(1, kind, n, vec![]), sets(Ref::Root, 0, Some(1))];
+                                for i in 0..extra {
+                                    body.push(alloc(2 + i, Kind::Node, 0, vec![]));
+                                    if i == 0 {
+                                        body.push(sets(Ref::Root, 1, Some(2)));
+                                    } else {
+                                        body.push(sets(Ref::Obj(1 + i), 2, Some(2 + i)));
+                                    }
+                                }
+                                let mut ops = vec![
+                                    Op::New { a: 0, via: NewKind::New, body },
+                                    Op::SetPacing { a: 0, p: PacingSpec { min_sleep: 0, sleep_factor: 0.0, ..PacingSpec::DEFAULT } },
+                                    col(COp::FinishMarking),
+                                    Op::AdjustDebt { a: 0, amt: 50.0 },
+                                ];
+                                for r in 0..rounds {
+                                    let fresh = 100 + r;
+                                    let mut b = vec![alloc(fresh, Kind::RCell, 0, vec![])];
+                                    match mode {
+                                        0..=5 => b.push(MOp::BarrierOnly { p: 1, c: Some(fresh), mode }),
+                                        6 => b.push(MOp::Touch { o: 1 }),
+                                        _ => b.push(MOp::SetS { p: Ref::Obj(1), slot: 0, c: Some(fresh), mode: 0, thin: false }),
+                                    }
+                                    ops.push(cb(b));
+                                    match between {
+                                        0 => ops.push(col(COp::FinishMarking)),
+                                        1 => {
+                                            ops.push(col(COp::StepMark));
+                                            ops.push(col(COp::StepMark));
+                                        }
+                                        _ => {}
+                                    }
+                                    if between == 1 {
+                                        ops.push(Op::AdjustDebt { a: 0, amt: 50.0 });
+                                    }
+                                }
+                                ops.push(Op::AdjustDebt { a: 0, amt: 1000.0 });
+                                ops.push(col(COp::CycleDebt));
+                                ops.push(col(COp::FinishCycle));
+                                ops.push(Op::DropArena { a: 0 });
+                                ops
+                            },
+                            |s| s.get("debt_monotonic_checks") >= 1 && s.c.iter().any(|(k, v)| *v > 0 && (k.starts_with("barrier_only_") || k.starts_with("touch_") || k.starts_with("store_")) && !k.ends_with("_Sleeping")),
+                        );
+                        if !cont {
+                            return;
+                        }
+                    }
+                }
+            }
+        }
+    }
+}
